@@ -15,6 +15,7 @@ import (
 	"time"
 
 	"github.com/openGemini/openGemini/lib/config"
+	"github.com/openGemini/openGemini/lib/metaclient"
 	"github.com/openGemini/openGemini/lib/util/lifted/influx/influxql"
 	"github.com/openGemini/openGemini/lib/util/lifted/influx/meta"
 	proto2 "github.com/openGemini/openGemini/lib/util/lifted/influx/meta/proto"
@@ -50,7 +51,8 @@ type Group struct {
 	Deleted bool    `json:"deleted"`
 	Trunc   *string `json:"trunc"` // TruncatedAt or null
 	Shards  []Shard `json:"shards"`
-	Alive   []int   `json:"alive"`
+	Alive   []int   `json:"alive"`  // GetAliveShards(.., isRead = true) when the query runs
+	WAlive  []int   `json:"walive"` // GetAliveShards(.., isRead = false) while the rows were written
 	Born    int     `json:"born"` // index of the point whose routing created the group, -1 = existed before
 	Resh    bool    `json:"resh"` // created by Data.ReSharding before the batch that starts at point Born
 }
@@ -121,7 +123,9 @@ type Cfg struct {
 	Typ     string   `json:"typ"`
 	Dur     int64    `json:"dur"`
 	PtNum   int      `json:"ptnum"`
-	Offline []int    `json:"offline"`
+	Offline []int    `json:"offline"`      // partitions that are offline while the rows are written
+	OfflineRead []int `json:"offline_read"` // partitions that are offline when the query runs; null = the same as at write time
+	HardWrite bool   `json:"hardwrite"`    // coordinator.hard-write: writes hash over all shards of the group
 }
 
 type Case struct {
@@ -152,6 +156,7 @@ type Case struct {
 // meta client over the real meta.Data
 
 type mclient struct {
+	real    *metaclient.Client // the repository's meta client over the same catalogue: GetAliveShards (HA policy, partition status)
 	data    *meta.Data
 	offline map[int]bool
 	born    map[uint64]int
@@ -226,6 +231,15 @@ func (m *mclient) CreateMeasurement(database, rp, mst string, sk *meta.ShardKeyI
 	return nil, fmt.Errorf("not used")
 }
 func (m *mclient) GetAliveShards(database string, sgi *meta.ShardGroupInfo, isRead bool) []int {
+	owned := true
+	for i := range sgi.Shards {
+		owned = owned && len(sgi.Shards[i].Owners) > 0
+	}
+	if m.real != nil && owned {
+		// the real policy code: write-available-first looks at the status of the first owner partition of every shard
+		// (all shards for writes under hard-write)
+		return m.real.GetAliveShards(database, sgi, isRead)
+	}
 	res := make([]int, 0, len(sgi.Shards))
 	for i := range sgi.Shards {
 		if len(sgi.Shards[i].Owners) > 0 && m.offline[int(sgi.Shards[i].Owners[0])] {
